@@ -1,0 +1,16 @@
+//go:build verif
+
+package standard
+
+import (
+	"net"
+
+	"github.com/cloudwego/hertz/pkg/network"
+)
+
+// NewConnForVerif wraps an arbitrary net.Conn in the real buffered Conn.
+// Verification hook (build tag verif): lets an external harness feed scripted
+// fragment schedules to the real reader/writer.
+func NewConnForVerif(c net.Conn, size int) network.Conn {
+	return newConn(c, size)
+}
